@@ -1,8 +1,16 @@
-//! Random well-typed programs for `harness check` (bridge to the generator of branch `genfun`).
+//! Random well-typed programs for `harness check` (bridge to the generator of `gen_fun.rs`).
 use crate::rng::Rng;
 use fun::syntax::program::Program;
 
-/// the i-th random program of this run: (name, parsed program); None = no generator linked in
-pub fn random_program(_rng: &mut Rng, _i: usize) -> Option<(String, Program)> {
-    None
+/// the i-th random program of this run: (name, parsed program).  Every fourth program is generated
+/// WITHOUT the generator's work-around for the checker's instance-creation order (such programs are
+/// still well-typed; the real checker rejects some of them - C15 finding `C15-instance-order`).
+pub fn random_program(rng: &mut Rng, i: usize) -> Option<(String, Program)> {
+    let seed = rng.next() >> 16;
+    let plain = i % 4 == 3;
+    let opts: Vec<String> = if plain { vec!["avoid_instance_order_bug=false".to_string()] } else { vec![] };
+    let g = std::panic::catch_unwind(|| crate::cmd_genfun::gen_k(seed, i, &opts)).ok()?;
+    let text = g.text;
+    let p = std::panic::catch_unwind(move || fun::parser::parse_module(&text)).ok()?.ok()?;
+    Some((format!("gen:{seed}:{i}{}", if plain { ":plain" } else { "" }), p))
 }
